@@ -282,8 +282,9 @@ theorem specAliasMap_split (tabs : List DObj) : specAliasMap tabs = baseMap tabs
 
 /-- the alias edges of the holder are those of the table references `tabs`, and the tables are nodes -/
 structure AliasOK (g : LGraph) (tabs : List DObj) : Prop where
-  edge : ∀ d a, ((Node.ds d, Node.str a) ∈ g.edges ∧ g.ety (.ds d) (.str a) = some .hasAlias) ↔
-    ∃ o ∈ tabs, o.d = d ∧ o.alias = some a
+  edge : ∀ d a, tabs.any (·.d == d) = true →
+    (((Node.ds d, Node.str a) ∈ g.edges ∧ g.ety (.ds d) (.str a) = some .hasAlias) ↔
+      ∃ o ∈ tabs, o.d = d ∧ o.alias = some a)
   node : ∀ o ∈ tabs, Node.ds o.d ∈ g.nodes
 
 theorem mem_graphExpl (g : LGraph) (tabs : List DObj) (hT : ∀ o ∈ tabs, o.d.isTable = true) (hA : AliasOK g tabs)
@@ -305,7 +306,7 @@ theorem mem_graphExpl (g : LGraph) (tabs : List DObj) (hT : ∀ o ∈ tabs, o.d.
         split at hx
         · rename_i hc
           simp only [Bool.and_eq_true, beq_iff_eq] at hc
-          obtain ⟨o, ho, hod, hoa⟩ := (hA.edge d a).mp ⟨mem_edgesOrdered g _ he, hc.1⟩
+          obtain ⟨o, ho, hod, hoa⟩ := (hA.edge d a hc.2).mp ⟨mem_edgesOrdered g _ he, hc.1⟩
           have hx' : x = (a, (d, printedDS g d)) := (Option.some.inj hx).symm
           subst hx'
           refine ⟨o, ho, ?_⟩
@@ -336,7 +337,9 @@ theorem mem_graphExpl (g : LGraph) (tabs : List DObj) (hT : ∀ o ∈ tabs, o.d.
         · rename_i hne
           have hx' : x = (a, (DS.table s n, DObj.printed ⟨.table s n, some a⟩)) := (Option.some.inj hx).symm
           subst hx'
-          have hE := (hA.edge (.table s n) a).mpr ⟨_, ho, rfl, rfl⟩
+          have hany : tabs.any (fun x => x.d == DS.table s n) = true :=
+            List.any_eq_true.mpr ⟨_, ho, by simp⟩
+          have hE := (hA.edge (.table s n) a hany).mpr ⟨_, ho, rfl, rfl⟩
           refine ⟨⟨(.ds (.table s n), .str a), ?_, ?_⟩, ?_⟩
           · exact (mem_edgesOrdered_iff g _).mpr ⟨hE.1, hA.node _ ho⟩
           · simp only [hE.2, beq_self_eq_true, Bool.true_and]
@@ -662,7 +665,7 @@ theorem readBase_gen (B : LGraph) (T : DS) (tabs : List DObj) (hl : ∀ o ∈ ta
     have := (hedges u v he).2
     rw [hv] at this; cases this
   refine ⟨⟨wf_foldl_addReadO tabs hl _ hwf, ⟨?_, hN.2⟩, ?_, ?_, ?_, ?_, ?_⟩, hE⟩
-  · intro d a
+  · intro d a _
     constructor
     · rintro ⟨he, _⟩
       rcases (hE _ _).mp he with h | ⟨o, ho, a', ha', hu, hv⟩
@@ -763,10 +766,10 @@ theorem ReadBase.isRead {g1 : LGraph} {tabs : List DObj} {T : DS} (h : ReadBase 
   exact List.mem_map.mpr ⟨o, ho, hd⟩
 
 theorem aliasOK_frame {g1 g : LGraph} {tabs : List DObj} (f : Frame g1 g) (hA : AliasOK g1 tabs) : AliasOK g tabs := by
-  refine ⟨fun d a => ?_, fun o ho => ?_⟩
+  refine ⟨fun d a hin => ?_, fun o ho => ?_⟩
   · have := f.edges (.ds d) (.str a) rfl rfl
     rw [this.1, this.2]
-    exact hA.edge d a
+    exact hA.edge d a hin
   · obtain ⟨extra, he, _⟩ := f.nodes
     have h1 : Node.ds o.d ∈ nonColNodes g1 := Frame.mem_nonCol.mpr ⟨hA.node o ho, rfl⟩
     have h2 : Node.ds o.d ∈ nonColNodes g := by rw [he]; exact List.mem_append.mpr (Or.inl h1)
@@ -1446,6 +1449,31 @@ theorem payOK_addLin (g : LGraph) (src tgt : Column) (tp : DS × String) (h : Pa
   | none => exact t2
   | some sp => exact payOK_addEdge _ _ _ _ _ _ _ t2 (hN _) hS
 
+theorem mem_nodes_addLin (g : LGraph) (src tgt : Column) (tp : DS × String) (n : Node)
+    (h : n ∈ (addLin g src tgt tp).nodes) : n ∈ g.nodes ∨ n = src.key ∨ n = tgt.key ∨ n.isCol = false := by
+  unfold addLin at h
+  cases hp : src.parent? with
+  | none =>
+    rw [hp] at h
+    simp only [mem_nodes_addEdge] at h
+    rcases h with ((h | h | h) | h | h)
+    · exact Or.inl h
+    · exact Or.inr (Or.inl h)
+    · exact Or.inr (Or.inr (Or.inl h))
+    · exact Or.inr (Or.inr (Or.inr (by rw [h]; rfl)))
+    · exact Or.inr (Or.inr (Or.inl h))
+  | some sp =>
+    rw [hp] at h
+    simp only [mem_nodes_addEdge] at h
+    rcases h with (((h | h | h) | h | h) | h | h)
+    · exact Or.inl h
+    · exact Or.inr (Or.inl h)
+    · exact Or.inr (Or.inr (Or.inl h))
+    · exact Or.inr (Or.inr (Or.inr (by rw [h]; rfl)))
+    · exact Or.inr (Or.inr (Or.inl h))
+    · exact Or.inr (Or.inr (Or.inr (by rw [h]; rfl)))
+    · exact Or.inr (Or.inl h)
+
 theorem mem_specOwners (K : List (Node × Node)) (x : Node × Node) :
     x ∈ specOwners K ↔ ∃ p ∈ K, (∃ d, colParent p.1 = some d ∧ x = (.ds d, p.1)) ∨ (∃ d, colParent p.2 = some d ∧ x = (.ds d, p.2)) := by
   unfold specOwners
@@ -1472,9 +1500,10 @@ structure Wired (g1 g : LGraph) (K : List (Node × Node)) : Prop where
   own : ∀ u v, u.isCol = false → v.isCol = true → ((u, v) ∈ g.edges ↔ (u, v) ∈ g1.edges ∨ (u, v) ∈ specOwners K)
   ty : Typed g
   pay : PayOK g
+  cnodes : ∀ n, n.isCol = true → n ∈ g.nodes → n ∈ g1.nodes ∨ ∃ p ∈ K, n = p.1 ∨ n = p.2
 
 theorem Wired.base {g1 : LGraph} {tabs : List DObj} {T : DS} (h : ReadBase g1 tabs T) : Wired g1 g1 [] := by
-  refine ⟨Frame.refl g1, ?_, ?_, h.ty, h.pay⟩
+  refine ⟨Frame.refl g1, ?_, ?_, h.ty, h.pay, fun n _ hn => Or.inl hn⟩
   · intro u v hu
     constructor
     · intro he
@@ -1485,7 +1514,8 @@ theorem Wired.base {g1 : LGraph} {tabs : List DObj} {T : DS} (h : ReadBase g1 ta
 
 theorem Wired.congr {g1 g : LGraph} {K K' : List (Node × Node)} (h : Wired g1 g K) (hk : ∀ x, x ∈ K ↔ x ∈ K') :
     Wired g1 g K' := by
-  refine ⟨h.frame, fun u v hu => (h.lin u v hu).trans (hk _), fun u v hu hv => (h.own u v hu hv).trans ?_, h.ty, h.pay⟩
+  refine ⟨h.frame, fun u v hu => (h.lin u v hu).trans (hk _), fun u v hu hv => (h.own u v hu hv).trans ?_, h.ty, h.pay,
+    fun n hn hm => (h.cnodes n hn hm).imp id (fun ⟨p, hp, x⟩ => ⟨p, (hk p).mp hp, x⟩)⟩
   rw [mem_specOwners, mem_specOwners]
   constructor
   · rintro (h1 | ⟨p, hp, x⟩)
@@ -1499,7 +1529,14 @@ theorem Wired.step {g1 g : LGraph} {K : List (Node × Node)} (h : Wired g1 g K) 
     (htp : tgt.parent? = some tp) (hs : colOK src) (ht : colOK tgt) :
     Wired g1 (addLin g src tgt tp) (K ++ [(src.key, tgt.key)]) := by
   refine ⟨h.frame.trans (frame_addLin g src tgt tp), ?_, ?_, typed_addLin g src tgt tp h.ty,
-    payOK_addLin g src tgt tp h.pay hs ht⟩
+    payOK_addLin g src tgt tp h.pay hs ht, ?_⟩
+  rotate_left 2
+  · intro n hn hm
+    rcases mem_nodes_addLin g src tgt tp n hm with h1 | h1 | h1 | h1
+    · exact (h.cnodes n hn h1).imp id (fun ⟨p, hp, x⟩ => ⟨p, List.mem_append.mpr (Or.inl hp), x⟩)
+    · exact Or.inr ⟨(src.key, tgt.key), by simp, Or.inl h1⟩
+    · exact Or.inr ⟨(src.key, tgt.key), by simp, Or.inr h1⟩
+    · rw [h1] at hn; cases hn
   · intro u v hu
     rw [mem_edges_addLin, h.lin u v hu, List.mem_append, List.mem_singleton]
     constructor
@@ -2769,8 +2806,8 @@ theorem cleanupFoldPos_wired {g1 : LGraph} (imp : String) (s nm : String) (n : N
           colOK y ∧ ∀ sp, y.parent? = some sp → sp.1 ≠ .table s nm)) →
       ∃ g', (rest.zipIdx preW.length).foldlM
           (fun g ci => cleanupItem imp (.table s nm, printedDS g (.table s nm)) n tabs g ci k) g = .ok g' ∧
-        Wired g1 g' (K ++ posPairs KEYS (rest.zip restW))
-  | [], restW, preW, g, K, _, _, h, _, _ => ⟨g, rfl, by simpa [posPairs] using h⟩
+        Wired g1 g' (K ++ posPairs KEYS (rest.zip restW)) ∧ WC (.table s nm) colsW g'
+  | [], restW, preW, g, K, _, _, h, hwc, _ => ⟨g, rfl, by simpa [posPairs] using h, hwc⟩
   | c :: r, [], preW, g, K, _, hl, _, _, _ => by simp at hl
   | c :: r, w :: rw, preW, g, K, hsplit, hl, h, hwc, hsrc => by
     have hw : writeSet g = [.table s nm] := by unfold writeSet; rw [tagSet_eq_of_frame h.frame]; exact hws
@@ -2796,9 +2833,9 @@ theorem cleanupFoldPos_wired {g1 : LGraph} (imp : String) (s nm : String) (n : N
     have hwc' : WC (.table s nm) colsW g' :=
       WC.inner w (.table s nm, s ++ "." ++ nm) (hcw w hwin).1 rfl (List.mem_map.mpr ⟨w, hwin, rfl⟩) _ g g' hwc
         (fun y hy => (hys y hy).2) hfold
-    obtain ⟨g'', hg'', hw''⟩ := cleanupFoldPos_wired imp s nm n tabs k KEYS colsW hn hws hnr hcw r rw (preW ++ [w]) g' _
+    obtain ⟨g'', hg'', hw'', hwc''⟩ := cleanupFoldPos_wired imp s nm n tabs k KEYS colsW hn hws hnr hcw r rw (preW ++ [w]) g' _
       (by rw [hsplit]; simp) (by simpa using hl) hw' hwc' (fun c' hc' => hsrc c' (by simp [hc']))
-    refine ⟨g'', ?_, hw''.congr ?_⟩
+    refine ⟨g'', ?_, hw''.congr ?_, hwc''⟩
     · simp only [List.zipIdx_cons, List.foldlM_cons, bind, Except.bind]
       have : cleanupItem imp (.table s nm, printedDS g (.table s nm)) n tabs g (c, preW.length) k = .ok g' := hg'
       rw [this]
@@ -2830,7 +2867,7 @@ theorem endOfQueryCleanupPos_wired (imp : String) (g : LGraph) (s nm : String) (
       (∀ y ∈ toSourceColumns imp (aliasMapping g' tabs) c k, colOK y ∧ ∀ sp, y.parent? = some sp → sp.1 ≠ .table s nm)) :
     ∃ g2, endOfQueryCleanup imp g tabs cols [] k = .ok g2 ∧
       Wired (tabs.foldl addReadO g) g2 (posPairs KEYS (cols.zip colsW)) := by
-  obtain ⟨g2, hg2, hw⟩ := cleanupFoldPos_wired imp s nm cols.length tabs k KEYS colsW hn.symm hb.writeSet
+  obtain ⟨g2, hg2, hw, _⟩ := cleanupFoldPos_wired imp s nm cols.length tabs k KEYS colsW hn.symm hb.writeSet
     (hb.notRead hself) hcw cols colsW [] (tabs.foldl addReadO g) [] rfl hn (Wired.base hb) hwc hsrc
   refine ⟨g2, ?_, by simpa using hw⟩
   unfold endOfQueryCleanup
